@@ -15,6 +15,7 @@ Definition id_valid (c : N) (s : str) : bool :=
   | 5 => is_ok (C10.Model.validate_server_name s)
   | 6 => is_ok (C10.Model.validate_room_or_alias_id s)
   | 9 => is_ok (C10.Model.validate_room_version_id s)
+  | 10 => is_ok (C10.Model.validate_key_id C10.Model.KSigningVersion s)
   | _ => false
   end%N.
 
